@@ -490,15 +490,19 @@ def reduce_ideal(p, a, repl, deg=2):
 
 # ---------------------------------------------------------------------------------------------
 # decision tables: compare two terms that contain selections by evaluating them under every valuation of the
-# distinct comparison atoms (sound for PROVED: agreement on all valuations, feasible or not, is agreement)
+# order relation (lt / eq / gt / unordered) of each distinct pair of compared operands.
+# PROVED is sound because agreement under all valuations, feasible or not, is agreement.  REFUTED is only reported
+# when the disagreement is pinned to one relation of a single operand pair (all relations of the other pairs
+# disagree as well) and that relation is not excluded by sign-definiteness of the operand difference.
 
-_CANON = {'olt': ('olt', True), 'ole': ('ole', True), 'oeq': ('oeq', True), 'one': ('one', True), 'ord': ('ord', True),
-          'ule': None, 'ult': None, 'une': ('oeq', False), 'ueq': ('one', False), 'uno': ('ord', False)}
+RELS = ('lt', 'eq', 'gt', 'uno')
+_SAT = {'eq': {'eq'}, 'ne': {'lt', 'gt'}, 'lt': {'lt'}, 'le': {'lt', 'eq'}, 'gt': {'gt'}, 'ge': {'gt', 'eq'}}
 
 
 class NeedAtom(Exception):
-    def __init__(self, key):
+    def __init__(self, key, info=None):
         self.key = key
+        self.info = info
 
 
 class DecisionCtx(PCtx):
@@ -506,27 +510,28 @@ class DecisionCtx(PCtx):
         super().__init__()
         self.assign = assign
 
-    def lit(self, c):
-        """(atom key, polarity) of an fcmp literal"""
-        pred = c.args[0]
-        a, b = self.fpoly(c.args[1]), self.fpoly(c.args[2])
-        if pred == 'ule':      # !(b < a)
-            return ('olt', b.key(), a.key()), False
-        if pred == 'ult':      # !(b <= a)
-            return ('ole', b.key(), a.key()), False
-        p, pol = _CANON[pred]
-        if p in ('oeq', 'one', 'ord') and b.key() < a.key():
-            a, b = b, a
-        return (p, a.key(), b.key()), pol
-
     def decide(self, c):
         if c.op == 'const':
             return bool(c.args[0])
         if c.op == 'fcmp':
-            k, pol = self.lit(c)
+            pred = c.args[0]
+            a, b = self.fpoly(c.args[1]), self.fpoly(c.args[2])
+            flip = b.key() < a.key()
+            if flip:
+                a, b = b, a
+            k = ('pair', a.key(), b.key())
             if k not in self.assign:
-                raise NeedAtom(k)
-            return self.assign[k] == pol
+                raise NeedAtom(k, (a, b))
+            rel = self.assign[k]
+            if flip:
+                rel = {'lt': 'gt', 'gt': 'lt'}.get(rel, rel)
+            if rel == 'uno':
+                return pred[0] == 'u'
+            if pred == 'ord':
+                return True
+            if pred == 'uno':
+                return False
+            return rel in _SAT[pred[1:]]
         if c.op == 'not':
             return not self.decide(c.args[0])
         if c.op in ('and', 'or', 'xor') and c.w == 1:
@@ -540,33 +545,66 @@ class DecisionCtx(PCtx):
         return self.assign[k]
 
 
-def decision_equal(t1, t2, max_atoms=8, post=None):
-    """True if fpoly(t1) == fpoly(t2) under every valuation of their comparison atoms; False if some valuation
-    separates them; None if too many atoms / no normal form"""
+def _definite(p):
+    """is the polynomial sign-definite (never zero) by inspection: even powers only, one sign, non-zero constant?"""
+    if not p.t or () not in p.t:
+        return False
+    sg = p.t[()] > 0
+    for m, c in p.t.items():
+        if (c > 0) != sg:
+            return False
+        for a in set(m):
+            if m.count(a) % 2:
+                return False
+    return True
+
+
+def decision_equal(t1, t2, max_atoms=6, post=None):
+    """True: equal under every valuation.  (False, description, poly1, poly2): separated by a single-pair relation.
+    None: undecided (too many atoms, no normal form, or a separation that depends on several atoms)."""
     import itertools
     atoms = []
+    infos = {}
     while True:
         need = None
-        sep = None
-        for vals in itertools.product((False, True), repeat=len(atoms)):
+        seps = []
+        doms = [RELS if a[0] == 'pair' else (False, True) for a in atoms]
+        total = 0
+        for vals in itertools.product(*doms):
+            total += 1
             ctx = DecisionCtx(dict(zip(atoms, vals)))
             try:
                 a, b = ctx.fpoly(t1), ctx.fpoly(t2)
                 if post:
                     a, b = post(a), post(b)
             except NeedAtom as e:
-                need = e.key
+                need = e
                 break
             except (NonFinite, TooBig):
                 return None
             if a != b:
-                sep = (dict(zip(atoms, vals)), a, b)
-                break
+                seps.append((vals, a, b))
         if need is not None:
             if len(atoms) >= max_atoms:
                 return None
-            atoms.append(need)
+            atoms.append(need.key)
+            infos[need.key] = need.info
             continue
-        if sep:
-            return (False,) + sep
-        return True
+        if not seps:
+            return True
+        # is the separation pinned to one relation of one pair ?
+        for i, at in enumerate(atoms):
+            if at[0] != 'pair':
+                continue
+            for rel in ('lt', 'eq', 'gt'):
+                mine = [s_ for s_ in seps if s_[0][i] == rel]
+                expected = 1
+                for j, d in enumerate(doms):
+                    if j != i:
+                        expected *= len(d)
+                if len(mine) == expected and mine:
+                    pa, pb = infos[at]
+                    if rel == 'eq' and _definite(pa - pb):
+                        continue
+                    return (False, '%s %s %s' % (show_poly(pa, limit=4), {'lt': '<', 'eq': '==', 'gt': '>'}[rel], show_poly(pb, limit=4)), mine[0][1], mine[0][2])
+        return None
